@@ -28,6 +28,9 @@ MODES = [
     [], ["--side-by-side"], ["--line-numbers"], ["--side-by-side", "--line-numbers"], ["--color-only"], ["--raw"],
     ["--diff-so-fancy"], ["--diff-highlight"], ["--navigate"], ["--hyperlinks"], ["--keep-plus-minus-markers"],
     ["--side-by-side", "--wrap-max-lines", "0"], ["--side-by-side", "--wrap-max-lines", "1"], ["--max-line-length", "10"],
+    ["--side-by-side", "--wrap-max-lines", "unlimited"], ["--side-by-side", "--wrap-max-lines", "unlimited"],
+    ["--side-by-side", "--wrap-max-lines", "unlimited", "--line-numbers-left-format", "", "--line-numbers-right-format", ""],
+    ["--side-by-side", "--wrap-max-lines", "7", "--wrap-right-percent", "1"],
     ["--max-line-length", "0"], ["--line-buffer-size", "0"], ["--tabs", "0"], ["--no-gitconfig", "--relative-paths"],
     ["--side-by-side", "--line-fill-method", "spaces"], ["--line-fill-method", "ansi"], ["--syntax-theme", "none"],
     ["--word-diff-regex", "."], ["--max-line-distance", "0"], ["--max-line-distance", "1"], ["--inspect-raw-lines", "false"],
@@ -36,7 +39,8 @@ MODES = [
     ["--line-numbers", "--line-numbers-left-format", "{nm:^1}", "--line-numbers-right-format", "{np:>12}|"],
     ["--zero-style", "syntax #222222", "--line-fill-method", "spaces"],
 ]
-WIDTHS = [None, "1", "2", "3", "4", "5", "7", "8", "11", "12", "40", "79", "80", "200", "variable"]
+WIDTHS = [None, "1", "2", "3", "4", "5", "6", "7", "8", "9", "10", "11", "12", "13", "14", "15", "16", "17", "18", "19", "20", "40",
+          "79", "80", "200", "variable"]
 
 
 AUTHORS = ["Ann", "K", "日本語の名前がとても長い人物です", "Kangwook Lee (이강욱)", "a b c", "x" * 40, "éé", "Dan  Davison"]
